@@ -125,7 +125,9 @@ def check_epoch_views(tensors, fresh):
         if not ok or p.base is not None or p is w:
             continue
         b = p
-        bn = next((k for k, t in tensors.items() if t is b), "?")
+        bn = next((k for k, t in tensors.items() if t is b), None)
+        if bn is None:
+            continue  # the chain ends in an internal tensor (a placeholder of an in-place update), not in a base the caller holds
         if not np.shares_memory(w.data, b.data) and w.size:
             continue
         bg, wg = b.grad, w.grad
